@@ -161,7 +161,8 @@ def run(repo, task):
                 rep.count()
                 if len(set(map(repr, outs))) > 1:
                     k = [i for i, o in enumerate(outs) if repr(o) != repr(outs[0])][0]
-                    rep.fail(f'C03:layout:{opname}', f'op {opname} differs between layouts {frames[0][0]} and {frames[k][0]} for kinds={kinds} rows={rows}: {str(outs[0])[:200]} vs {str(outs[k])[:200]}',
+                    cause = 'empty' if rows == 0 else ('object-column' if 'O' in kinds else ('str-column' if 'U' in kinds else ('bool-column' if 'b' in kinds else 'plain')))
+                    rep.fail(f'C03:layout:{opname}:{cause}', f'op {opname} differs between layouts {frames[0][0]} and {frames[k][0]} for kinds={kinds} rows={rows}: {str(outs[0])[:200]} vs {str(outs[k])[:200]}',
                              dict(kinds=''.join(kinds), rows=rows, op=opname, layout_a=[list(x) for x in frames[0][0]], layout_b=[list(x) for x in frames[k][0]]))
     return rep.done()
 
